@@ -30,11 +30,20 @@ def user_config(sc, as_objects=False):
         from ropt.config.enopt import LinearConstraintsConfig, NonlinearConstraintsConfig, RealizationsConfig, VariablesConfig
         for key, cls in (("variables", VariablesConfig), ("linear_constraints", LinearConstraintsConfig),
                          ("nonlinear_constraints", NonlinearConstraintsConfig), ("realizations", RealizationsConfig)):
-            cfg[key] = cls.model_validate(cfg[key])
+            if key in cfg:
+                cfg[key] = cls.model_validate(cfg[key])
     return cfg
 
 
 def _user_config(sc):
+    cfg = _full_config(sc)
+    if sc.get("bnd") == "none":          # no variable bounds and no non-linear constraints: only linear differences are reported
+        cfg.pop("nonlinear_constraints")
+        cfg["variables"] = {"initial_values": cfg["variables"]["initial_values"]}
+    return cfg
+
+
+def _full_config(sc):
     rel = sc["ptype"] == "rel"
     return {
         "variables": {"initial_values": [float(v) for v in sc["x"]], "lower_bounds": [f(b) for b in sc["lb"]],
@@ -71,7 +80,7 @@ def run(sc, transforms):
         obj = (variables[:, 0] + 2.0 * variables[:, 1] + r)[:, None]
         if sc.get("fail"):                      # every realization fails: functions are not reported
             obj = np.full_like(obj, np.nan)
-        return EvaluatorResult(objectives=obj, constraints=(variables[:, 0] - variables[:, 1] + r)[:, None])
+        return EvaluatorResult(objectives=obj, constraints=None if sc.get("bnd") == "none" else (variables[:, 0] - variables[:, 1] + r)[:, None])
 
     pm = graddrive.manager()
     pm.add_plugin("optimizer", "rvscript", ScriptPlugin())
@@ -101,11 +110,12 @@ def run(sc, transforms):
         ci = fr.constraint_info
         proj["vars"] = nums(fr.evaluations.variables)
         proj["pert"] = nums(gr.evaluations.perturbed_variables.reshape(-1))
-        proj["real"] = nums(np.concatenate([fr.evaluations.objectives.reshape(-1), fr.evaluations.constraints.reshape(-1),
-                                            gr.evaluations.perturbed_objectives.reshape(-1), gr.evaluations.perturbed_constraints.reshape(-1)]))
-        proj["funs"] = nums(np.concatenate([np.atleast_1d(fr.functions.weighted_objective), fr.functions.objectives, fr.functions.constraints]))
-        proj["diffs"] = nums(np.concatenate([ci.bound_lower, ci.bound_upper, ci.linear_lower, ci.linear_upper, ci.nonlinear_lower, ci.nonlinear_upper]))
-        proj["viols"] = nums(np.concatenate([ci.bound_violation, ci.linear_violation, ci.nonlinear_violation]))
+        cat = lambda *arrs: np.concatenate([np.asarray(a, dtype=np.float64).reshape(-1) for a in arrs if a is not None])  # noqa: E731
+        proj["real"] = nums(cat(fr.evaluations.objectives, fr.evaluations.constraints,
+                                gr.evaluations.perturbed_objectives, gr.evaluations.perturbed_constraints))
+        proj["funs"] = nums(cat(np.atleast_1d(fr.functions.weighted_objective), fr.functions.objectives, fr.functions.constraints))
+        proj["diffs"] = nums(cat(ci.bound_lower, ci.bound_upper, ci.linear_lower, ci.linear_upper, ci.nonlinear_lower, ci.nonlinear_upper))
+        proj["viols"] = nums(cat(ci.bound_violation, ci.linear_violation, ci.nonlinear_violation))
     return proj
 
 
@@ -117,7 +127,7 @@ def drive(sc):
     cfg_plain = EnOptConfig.model_validate(user_config(sc))
     cfg_opt = EnOptConfig.model_validate(user_config(sc), context=transforms_of(sc))
     x = np.array(sc["x"], dtype=np.float64)
-    e = {"ev": "Pair", **{k: sc[k] for k in ("s", "o", "fs", "a", "l", "u", "x", "lb", "ub", "ptype")},
+    e = {"ev": "Pair", "bnd": sc.get("bnd", "finite"), **{k: sc[k] for k in ("s", "o", "fs", "a", "l", "u", "x", "lb", "ub", "ptype")},
          "plain": plain, "trans": trans,
          "which": sc.get("which", "all"), "fail": bool(sc.get("fail", False)),
          "roundtrip": nums(x if transforms.variables is None else transforms.variables.from_optimizer(transforms.variables.to_optimizer(x))),
